@@ -6,14 +6,15 @@ content of the first PUBLISH.
 
 Property theorems only (helper lemmas: `Proofs/BrokerQos*.lean`), stated on the
 code-shaped broker model `Model/Broker.lean` for *all* broker states satisfying
-the representation invariant `Inv` (proved to hold initially and to be preserved
+the representation invariant `BInv` (proved to hold initially and to be preserved
 by every `step`), all connection identifiers, packets and histories.
 -/
-import Mqtt.Proofs.BrokerQos
+import Mqtt.Proofs.BrokerQosInv
 
 namespace Mqtt.Properties.C02
 
 open Mqtt.Iface.Broker Mqtt.Model.Broker Mqtt.Proofs.BrokerQos
+open Mqtt.Generated (tPUBREL)
 
 /-! ## 0. Concrete states for the non-vacuity examples
 
@@ -55,6 +56,98 @@ theorem onPublish_outputs (b : B) (m : Msg) (subs : List (Nat × Nat)) (l : List
 example : (onPublish demo ⟨{ qos := 1, retain := true, topic := [116], pktid := 7, payload := [1] }, false⟩).2.2.1 =
     [.send 1 (.publish { qos := 1, topic := [116], pktid := 7, payload := [1] }),
      .call 1000 { qos := 1, retain := true, topic := [116], pktid := 7, payload := [1] }] := by
+  decide
+
+/-! ## The representation invariant
+
+`BInv b` (`Proofs/BrokerQosInv.lean`): session references are pairwise distinct
+and below the counter new sessions draw from; the session reference of every
+connection in the table resolves to a session object; every session's inbound
+QoS 2 queue has pairwise distinct identifiers, entry states "waiting" (0) or
+"PUBREL seen" only, and an oldest entry that is still waiting. -/
+
+/-- The invariant holds in the initial broker and is preserved by every event —
+hence in every reachable state. -/
+theorem C02_inv :
+    BInv ({} : B) ∧ (∀ b ev, BInv b → BInv (step b ev).1) ∧ (∀ b evs, BInv b → BInv (run b evs).1) :=
+  ⟨inv_init, fun _ ev h => step_inv h ev, fun _ evs h => run_inv h evs⟩
+
+example : BInv demo := run_inv inv_init demoEvs
+
+/-- under the invariant a live connection has a session object -/
+theorem C02_live_session (b : B) (hI : BInv b) (c : Nat) (hl : b.alive c = true) :
+    ∃ s, sessOf b c = some s := by
+  obtain ⟨cn, s, hc, _, hs, _⟩ := hI.live hl
+  exact ⟨s, sessOf_eq hc hs⟩
+
+/-! ## (b) QoS 1 and QoS 0 PUBLISH -/
+
+/-- **(b)** On a live connection a QoS 1 PUBLISH is answered by `PUBACK` with its
+identifier as the *first* output, this is the only acknowledgement among the
+outputs, and the remaining outputs and the new state are exactly those of one
+`onPublish` of the received message — one hand-over per PUBLISH received (a
+repeated PUBLISH, DUP or not, is handed on again: QoS 1 is at-least-once).  A
+QoS 0 PUBLISH produces exactly the outputs of `onPublish`, no acknowledgement. -/
+theorem C02_qos1 (b : B) (hI : BInv b) (c : Nat) (hl : b.alive c = true) (p : Pub) :
+    (p.qos = 1 →
+      packet b c (.publish p) =
+        ((onPublish b ⟨p, false⟩).1, .send c (.puback p.pktid) :: (onPublish b ⟨p, false⟩).2.2.1) ∧
+      (packet b c (.publish p)).2.filter isAck = [.send c (.puback p.pktid)]) ∧
+    (p.qos = 0 →
+      packet b c (.publish p) = ((onPublish b ⟨p, false⟩).1, (onPublish b ⟨p, false⟩).2.2.1) ∧
+      (packet b c (.publish p)).2.filter isAck = []) := by
+  obtain ⟨cn, s, hc, ha, hs, _⟩ := hI.live hl
+  have hf := filter_isAck_handOvers (onPublish_frame b ⟨p, false⟩).2
+  constructor
+  · intro hq
+    rw [packet_publish1 hc ha hs p hq]
+    refine ⟨rfl, ?_⟩
+    simp only [List.filter_cons, isAck, ↓reduceIte, hf]
+  · intro hq
+    rw [packet_publish0 hc ha hs p hq]
+    exact ⟨rfl, hf⟩
+
+/-- connection 2 publishes `t` at QoS 1 with identifier 7: PUBACK 7 first, then
+the two hand-overs (connection 1 at QoS 1, callback 1000) -/
+example : (packet demo 2 (.publish { qos := 1, topic := [116], pktid := 7, payload := [1] })).2 =
+    [.send 2 (.puback 7),
+     .send 1 (.publish { qos := 1, topic := [116], pktid := 7, payload := [1] }),
+     .call 1000 { qos := 1, topic := [116], pktid := 7, payload := [1] }] ∧
+    demo.alive 2 = true := by
+  decide
+
+/-! ## (c) QoS 2 PUBLISH -/
+
+/-- **(c)** On a live connection a QoS 2 PUBLISH is answered by exactly
+`[PUBREC id]` — nothing is handed on at PUBLISH time — and the only change of
+state is that the session's inbound queue becomes `q2Wait pub2in p`: unchanged
+if an exchange with this identifier is already open (the stored content stays
+that of the *first* PUBLISH), otherwise the new exchange is appended at the back
+in state "waiting" with the content of this PUBLISH. -/
+theorem C02_qos2_publish (b : B) (hI : BInv b) (c : Nat) (hl : b.alive c = true) (p : Pub) (hq : p.qos = 2) :
+    ∃ s, sessOf b c = some s ∧
+      packet b c (.publish p) =
+        (b.setSess { s with pub2in := q2Wait s.pub2in p }, [.send c (.pubrec p.pktid)]) ∧
+      sessOf (packet b c (.publish p)).1 c = some { s with pub2in := q2Wait s.pub2in p } ∧
+      ((s.pub2in.any fun e => e.id == p.pktid) = true → q2Wait s.pub2in p = s.pub2in) ∧
+      ((s.pub2in.any fun e => e.id == p.pktid) = false → q2Wait s.pub2in p = s.pub2in ++ [⟨p.pktid, 0, p⟩]) := by
+  obtain ⟨cn, s, hc, ha, hs, _⟩ := hI.live hl
+  refine ⟨s, sessOf_eq hc hs, packet_publish2 hc ha hs p hq, ?_, q2Wait_open _ p, q2Wait_new _ p⟩
+  rw [packet_publish2 hc ha hs p hq]
+  exact sessOf_after hc hs _ (Frame.refl _)
+
+/-- PUBLISH id 5, a DUP repetition with another payload, PUBLISH id 6: two
+PUBRECs for 5, one for 6, nothing handed on, and the queue holds the first
+content of 5 followed by 6 -/
+example :
+    let evs : List Ev :=
+      [.packet 2 (.publish { qos := 2, topic := [116], pktid := 5, payload := [1] }),
+       .packet 2 (.publish { dup := true, qos := 2, topic := [116], pktid := 5, payload := [2] }),
+       .packet 2 (.publish { qos := 2, topic := [116], pktid := 6, payload := [3] })]
+    (run demo evs).2 = [[.send 2 (.pubrec 5)], [.send 2 (.pubrec 5)], [.send 2 (.pubrec 6)]] ∧
+    (sessOf (run demo evs).1 2).map (·.pub2in) =
+      some [⟨5, 0, { qos := 2, topic := [116], pktid := 5, payload := [1] }⟩,
+            ⟨6, 0, { qos := 2, topic := [116], pktid := 6, payload := [3] }⟩] := by
   decide
 
 end Mqtt.Properties.C02
